@@ -311,6 +311,10 @@ func (s *Sched) killAll() {
 }
 
 // ---------------------------------------------------------------- channels
+//
+// Channels follow the runtime's semantics: a blocked select parks one waiter on every channel of
+// its cases; the counterpart operation that completes one of the cases commits it atomically
+// (value transferred, waiter removed from all queues), so a rendezvous can never be half-done.
 
 type ChanV struct {
 	id     int
@@ -318,9 +322,23 @@ type ChanV struct {
 	buf    []Value
 	closed bool
 	elemT  types.Type
-	// rendezvous for unbuffered channels
-	recvWaiting int
-	handoff     []Value
+	recvq  []*chanWaiter
+	sendq  []*chanWaiter
+}
+
+type selCase struct {
+	c    *ChanV
+	send bool
+	v    Value
+}
+
+// chanWaiter is a goroutine parked in a (possibly single-case) select.
+type chanWaiter struct {
+	cases []selCase
+	fired bool
+	idx   int
+	val   Value
+	ok    bool
 }
 
 func (ex *Exec) newChan(size int, et types.Type) *ChanV {
@@ -328,75 +346,152 @@ func (ex *Exec) newChan(size int, et types.Type) *ChanV {
 	return &ChanV{id: objCount, size: size, elemT: et}
 }
 
-func (c *ChanV) canSend() bool {
-	if c.closed {
-		return true // will panic
+func dequeueWaiter(w *chanWaiter) {
+	rm := func(q []*chanWaiter) []*chanWaiter {
+		out := q[:0]
+		for _, x := range q {
+			if x != w {
+				out = append(out, x)
+			}
+		}
+		return out
 	}
-	if c.size > 0 {
-		return len(c.buf) < c.size
+	for _, sc := range w.cases {
+		if sc.c == nil {
+			continue
+		}
+		if sc.send {
+			sc.c.sendq = rm(sc.c.sendq)
+		} else {
+			sc.c.recvq = rm(sc.c.recvq)
+		}
 	}
-	return c.recvWaiting > 0 && len(c.handoff) == 0
 }
-func (c *ChanV) canRecv() bool {
-	if c.size > 0 {
-		return len(c.buf) > 0 || c.closed
+
+func (w *chanWaiter) caseIndex(c *ChanV, send bool) int {
+	for i, sc := range w.cases {
+		if sc.c == c && sc.send == send {
+			return i
+		}
 	}
-	return len(c.handoff) > 0 || c.closed
+	return -1
+}
+
+// caseReady reports whether the case can complete right now without parking.
+func caseReady(sc selCase) bool {
+	c := sc.c
+	if c == nil {
+		return false
+	}
+	if sc.send {
+		return c.closed || len(c.recvq) > 0 || len(c.buf) < c.size
+	}
+	return len(c.buf) > 0 || len(c.sendq) > 0 || c.closed
+}
+
+// complete performs a ready case for the running goroutine.
+func (ex *Exec) complete(sc selCase) (Value, bool) {
+	c := sc.c
+	if sc.send {
+		if c.closed {
+			ex.oblige(TFalse, "panic:closedchan", "send on closed channel")
+			panic(pathEnd{"violation"})
+		}
+		if len(c.recvq) > 0 {
+			w := c.recvq[0]
+			w.fired, w.idx, w.val, w.ok = true, w.caseIndex(c, false), copyValue(sc.v), true
+			dequeueWaiter(w)
+			return nil, false
+		}
+		c.buf = append(c.buf, copyValue(sc.v))
+		return nil, false
+	}
+	if len(c.buf) > 0 {
+		v := c.buf[0]
+		c.buf = c.buf[1:]
+		if len(c.sendq) > 0 { // a parked sender moves its value into the freed slot
+			w := c.sendq[0]
+			i := w.caseIndex(c, true)
+			c.buf = append(c.buf, copyValue(w.cases[i].v))
+			w.fired, w.idx = true, i
+			dequeueWaiter(w)
+		}
+		return v, true
+	}
+	if len(c.sendq) > 0 {
+		w := c.sendq[0]
+		i := w.caseIndex(c, true)
+		v := copyValue(w.cases[i].v)
+		w.fired, w.idx = true, i
+		dequeueWaiter(w)
+		return v, true
+	}
+	return ex.zero(c.elemT), false // closed
+}
+
+// doSelect runs a select over the cases; returns the chosen index (-1 = default), received value, ok.
+func (ex *Exec) doSelect(cases []selCase, blocking bool) (int, Value, bool) {
+	ex.sched.point()
+	for {
+		var rdy []int
+		for i, sc := range cases {
+			if caseReady(sc) {
+				rdy = append(rdy, i)
+			}
+		}
+		if len(rdy) > 0 {
+			k := 0
+			if len(rdy) > 1 {
+				// Go picks uniformly at random among ready cases: every choice is explored
+				k = ex.chooseN(len(rdy))
+			}
+			v, ok := ex.complete(cases[rdy[k]])
+			return rdy[k], v, ok
+		}
+		if !blocking {
+			return -1, nil, false
+		}
+		w := &chanWaiter{cases: cases}
+		for _, sc := range cases {
+			if sc.c == nil {
+				continue
+			}
+			if sc.send {
+				sc.c.sendq = append(sc.c.sendq, w)
+			} else {
+				sc.c.recvq = append(sc.c.recvq, w)
+			}
+		}
+		ex.sched.block(func() bool {
+			if w.fired {
+				return true
+			}
+			for _, sc := range cases { // a close (or a harness-fed buffer) makes a parked case ready
+				if sc.c != nil && (sc.c.closed || !sc.send && len(sc.c.buf) > 0) {
+					return true
+				}
+			}
+			return false
+		})
+		if w.fired {
+			return w.idx, w.val, w.ok
+		}
+		dequeueWaiter(w)
+	}
 }
 
 func (ex *Exec) chanSend(cv, v Value) {
 	c, _ := cv.(*ChanV)
-	ex.sched.point()
-	if c == nil {
-		ex.sched.block(func() bool { return false })
-	}
-	ex.sched.block(c.canSend)
-	ex.doSend(c, v)
-}
-
-func (ex *Exec) doSend(c *ChanV, v Value) {
-	if c.closed {
-		ex.oblige(TFalse, "panic:closedchan", "send on closed channel")
-		panic(pathEnd{"violation"})
-	}
-	if c.size > 0 {
-		c.buf = append(c.buf, copyValue(v))
-		return
-	}
-	c.handoff = append(c.handoff, copyValue(v))
+	ex.doSelect([]selCase{{c: c, send: true, v: v}}, true)
 }
 
 func (ex *Exec) chanRecv(cv Value, commaOk bool, t types.Type) Value {
 	c, _ := cv.(*ChanV)
-	ex.sched.point()
-	if c == nil {
-		ex.sched.block(func() bool { return false })
-	}
-	c.recvWaiting++
-	ex.sched.block(c.canRecv)
-	c.recvWaiting--
-	v, ok := ex.doRecv(c)
+	_, v, ok := ex.doSelect([]selCase{{c: c}}, true)
 	if commaOk {
 		return TupleV{v, Bool(ok)}
 	}
 	return v
-}
-
-func (ex *Exec) doRecv(c *ChanV) (Value, bool) {
-	if c.size > 0 {
-		if len(c.buf) > 0 {
-			v := c.buf[0]
-			c.buf = c.buf[1:]
-			return v, true
-		}
-		return ex.zero(c.elemT), false
-	}
-	if len(c.handoff) > 0 {
-		v := c.handoff[0]
-		c.handoff = c.handoff[1:]
-		return v, true
-	}
-	return ex.zero(c.elemT), false
 }
 
 func (ex *Exec) chanClose(cv Value) {
@@ -414,65 +509,15 @@ func (ex *Exec) chanClose(cv Value) {
 }
 
 func (ex *Exec) selectOp(fr *Frame, in *ssa.Select) Value {
-	type st struct {
-		c    *ChanV
-		send bool
-		v    Value
-	}
-	states := make([]st, len(in.States))
+	cases := make([]selCase, len(in.States))
 	for i, s := range in.States {
 		c, _ := ex.get(fr, s.Chan).(*ChanV)
-		states[i] = st{c: c, send: s.Dir == types.SendOnly}
-		if states[i].send {
-			states[i].v = ex.get(fr, s.Send)
+		cases[i] = selCase{c: c, send: s.Dir == types.SendOnly}
+		if cases[i].send {
+			cases[i].v = ex.get(fr, s.Send)
 		}
 	}
-	ex.sched.point()
-	readyIdx := func() []int {
-		var out []int
-		for i, s := range states {
-			if s.c == nil {
-				continue
-			}
-			if s.send && s.c.canSend() || !s.send && s.c.canRecv() {
-				out = append(out, i)
-			}
-		}
-		return out
-	}
-	for _, s := range states {
-		if s.c != nil && !s.send {
-			s.c.recvWaiting++
-		}
-	}
-	unreg := func() {
-		for _, s := range states {
-			if s.c != nil && !s.send {
-				s.c.recvWaiting--
-			}
-		}
-	}
-	rdy := readyIdx()
-	if len(rdy) == 0 {
-		if !in.Blocking {
-			unreg()
-			return ex.selectResult(in, -1, nil, false)
-		}
-		ex.sched.block(func() bool { return len(readyIdx()) > 0 })
-		rdy = readyIdx()
-	}
-	unreg()
-	k := 0
-	if len(rdy) > 1 {
-		// Go picks uniformly at random among ready cases: every choice is explored
-		k = ex.chooseN(len(rdy))
-	}
-	i := rdy[k]
-	if states[i].send {
-		ex.doSend(states[i].c, states[i].v)
-		return ex.selectResult(in, i, nil, false)
-	}
-	v, ok := ex.doRecv(states[i].c)
+	i, v, ok := ex.doSelect(cases, in.Blocking)
 	return ex.selectResult(in, i, v, ok)
 }
 
